@@ -581,7 +581,7 @@ def _run_unionptr(case, ctx):
     addr = pad + hdr + 1
     P = addr.to_bytes(w, bo)
     head = {"top": P, "member": b"\x07" + P + b"\x09", "element": b"\x07" + P + P + b"\x09"}[where]
-    image = bytes(range(0x60, 0x60 + pad)) + head + b"\xcc" + (0x1234).to_bytes(2, bo) + b"\xdd"
+    image = bytes(range(0x60, 0x60 + pad)) + head + b"\xcc" + (0x1234).to_bytes(2, bo) + b"\xdd" + (0x5678).to_bytes(2, bo)
     T = {"top": cs.U, "member": cs.Root, "element": cs.Arr}[where]
     stream = io.BytesIO(image)
     stream.seek(pad)
@@ -605,6 +605,24 @@ def _run_unionptr(case, ctx):
             raise Violation("dereference-moved-stream", f"{what}: tell() {before} -> {stream.tell()}")
         if isinstance(rd, Err) or rd != 0x1234:
             raise Violation("pointer-in-union:dereference", f"{what}: union #{i}: the pointer holds {addr}; dereference gave {rd!r}, the bytes at {addr} of the stream decode to {0x1234:#x}", rd.where if isinstance(rd, Err) else None)
+    # the union rebuilds its members after an assignment: the pointer is a new object, on the same stream
+    u0 = unions[0]
+    r = lib(setattr, u0, "raw", addr + 3)
+    if isinstance(r, Err):
+        raise Violation("pointer-arithmetic", f"{what}: raw = {addr + 3}: {r}", r.where)
+    p2 = lib(get, u0)
+    rd2 = p2 if isinstance(p2, Err) else lib(p2.dereference)
+    if isinstance(rd2, Err) or int(p2) != addr + 3 or rd2 != 0x5678:
+        raise Violation("pointer-in-union:dereference", f"{what}: after raw = {addr + 3} the pointer member is {p2!r} and dereferences to {rd2!r}; the bytes at {addr + 3} of the stream decode to {0x5678:#x}")
+    # a union that was never read from a stream: its pointers have none
+    U = cs.U
+    fresh = lib(U)
+    if not isinstance(fresh, Err):
+        lib(setattr, fresh, "raw", addr)
+        pf = lib(get, fresh)
+        rf = pf if isinstance(pf, Err) else lib(pf.dereference)
+        if not isinstance(rf, Err) or rf.type != "NullPointerDereference":
+            raise Violation("null-dereference", f"{what}: U() with raw = {addr}: the pointer member has no stream, dereference gave {rf!r} instead of NullPointerDereference")
     ctx.count("pointer-in-union:" + case["form"])
     ctx.mark_nontrivial(case)
     ctx.sample(what, "union")
@@ -636,9 +654,3 @@ def stages(tier):
         EnumStage("union-members", unionptr_cases, shards=2, scope="3 widths x 2 byte orders x 2 readers x 4 places of the pointer inside a union x union parsed on its own / as a member / as array elements x 2 start positions"),
     ]
 
-
-def _kf_union_pointer(case, v):
-    return bool(case.get("unionptr")) and v.kind == "pointer-in-union:dereference"
-
-
-KNOWN_PREDICATES = {"pointer-in-union-loses-stream": _kf_union_pointer}
